@@ -33,10 +33,12 @@ pub struct Case {
 
 pub const THRESHOLDS: [f64; 10] = [0.0, 0.5, 1.0, 1.5, 2.0, 3.0, 5.0, 7.25, 10.0, 20.0];
 /// default window; reuse of the global ring; private ring
-pub const INTERVALS: [u32; 16] = [
+pub const INTERVALS: [u32; 20] = [
     0, 1000, // default metric
     500, 2000, 2500, 5000, 10000, // reuse the 20 x 500 ms global ring
     1, 250, 300, 700, 1500, 3000, 7000, 20000, 600000, // private ring
+    // private although they divide the 10 s ring: their bucket is not a multiple of the ring's 500 ms bucket
+    625, 1250, 125, 200,
 ];
 
 /// (bucket length, interval) of the window a rule is judged on, derived from the documentation of
